@@ -36,7 +36,7 @@ package xpath
 //@ inv groupQuery: self.Input != nil && !is(self.Input, nopQuery)
 //@ inv logicalQuery: self.Left != nil && self.Right != nil && self.Do != nil && !is(self.Left, nopQuery) && !is(self.Right, nopQuery)
 //@ inv numericQuery: self.Left != nil && self.Right != nil && self.Do != nil && !is(self.Left, nopQuery) && !is(self.Right, nopQuery)
-//@ inv booleanQuery: self.Left != nil && self.Right != nil
+//@ inv booleanQuery: self.Left != nil && self.Right != nil && !is(self.Left, nopQuery) && !is(self.Right, nopQuery)
 //@ inv unionQuery: self.Left != nil && self.Right != nil
 //@ inv lastFuncQuery: self.Input != nil
 //@ inv mergeQuery: self.Input != nil && self.Child != nil
@@ -51,20 +51,26 @@ package xpath
 //@   requires t != nil
 //@   tree-frame                     // assumed: see DESIGN "ownership"
 //@   disjoint-operands              // assumed: see DESIGN "ownership"
+//@   preserves heap(F:NodeIterator.*)   // queries never write the iterator they are driven by
 //@   ghost k(self) = ite(result != nil, old(k(self)) + 1, old(k(self)))
 //@   ghost epoch(self) = old(epoch(self))
+//@   ghost ctxp(self) = old(ctxp(self))
 //@   ensures-assumed[stream-def] result != nil ==> pos(result) == spos(ref(self), epoch(self), old(k(self))) && old(k(self)) < slen(ref(self), epoch(self))
 //@   ensures-assumed[stream-def] result == nil ==> slen(ref(self), epoch(self)) == old(k(self))
 //@   ensures-assumed[stream-def] 0 <= old(k(self)) && old(k(self)) <= slen(ref(self), epoch(self))
+//@   ensures-assumed[cursor-restored] pos(cur(t)) == old(pos(cur(t)))
 
 //@ iface query.Evaluate(t) result
 //@   requires t != nil
 //@   tree-frame
 //@   disjoint-operands
+//@   preserves heap(F:NodeIterator.*)
 //@   ghost k(self) = 0
 //@   ghost epoch(self) = old(epoch(self)) + 1
 //@   ghost ctxp(self) = old(pos(cur(t)))
 //@   ensures-assumed[query-value] is(result, query) ==> result == self
+//@   ensures-assumed[eval-def] result == evalv(ref(self), epoch(self))
+//@   ensures-assumed[cursor-restored] pos(cur(t)) == old(pos(cur(t)))
 //@   ensures-assumed[restart-deterministic] old(pos(cur(t))) == old(ctxp(self)) ==> slen(ref(self), epoch(self)) == slen(ref(self), old(epoch(self))) && forall(i, Int, spos(ref(self), epoch(self), i) == spos(ref(self), old(epoch(self)), i))
 //@   ensures[valtype@C15] valtype(result) || result == nil && is(self, nopQuery)
 
@@ -102,6 +108,7 @@ package xpath
 //@ field logicalQuery.Do(t, m, n) result
 //@   requires t != nil && valtype(m) && valtype(n)
 //@   requires[stream] (is(m, query) ==> 0 <= k(m) && k(m) <= slen(ref(m), epoch(m))) && (is(n, query) ==> 0 <= k(n) && k(n) <= slen(ref(n), epoch(n)))
+//@   requires[fresh-streams] is(m, query) && is(n, query) ==> k(m) == 0 && k(n) == 0 && ctxp(n) == pos(cur(t))
 //@   ensures[valtype@C15] valtype(result)
 
 //@ field numericQuery.Do(t, m, n) result
@@ -475,7 +482,22 @@ package xpath
 
 //@ func asBool
 //@   props C15 C07
+//@   theory stream
+//@   receiver v
+//@   tree-frame
+//@   disjoint-operands
+//@   preserves heap(F:NodeIterator.*)
+//@   ghost k(self) = ite(is(v, query) && result, old(k(v)) + 1, old(k(v)))
+//@   ghost epoch(self) = old(epoch(v))
+//@   ghost ctxp(self) = old(ctxp(v))
+//@   ensures[ghost-k@C07] is(v, query) ==> k(v) == ite(result, old(k(v)) + 1, old(k(v))) && epoch(v) == old(epoch(v))
 //@   requires[@C15] t != nil && (v == nil || valtype(v))
+//@   requires[stream] streamOK(v)
+//@   ensures[bool@C07] is(v, bool) ==> result == as(v, bool)
+//@   ensures[number@C07] is(v, float64) ==> result == (as(v, float64) != 0 && !isNaN(as(v, float64)))
+//@   ensures[string@C07] is(v, string) ==> result == (as(v, string) != "")
+//@   ensures[node-set@C07] is(v, query) ==> result == (old(k(v)) < slen(ref(v), epoch(v)))
+//@   ensures[nil@C07] v == nil ==> !result
 //@ func asString
 //@   props C15
 //@   requires[@C15] t != nil && (v == nil || valtype(v))
@@ -509,10 +531,12 @@ package xpath
 // the package initialiser and never changes (no other function stores to
 // logicalFuncs: checked mechanically).
 //@ define cellOK(f, name, m, n, tm, tn) = fn(f) == fnid(name) ==> tm && tn
+//@ define sameS(q, e1, e2) = slen(ref(q), e1) == slen(ref(q), e2) && forall(i, Int, spos(ref(q), e1, i) == spos(ref(q), e2, i))
 //@ define streamOK(v) = is(v, query) ==> 0 <= k(v) && k(v) <= slen(ref(v), epoch(v))
 //@ field type logical(t, op, m, n) result
 //@   requires t != nil && valtype(m) && valtype(n)
 //@   requires[stream] streamOK(m) && streamOK(n)
+//@   requires[fresh-streams] is(m, query) && is(n, query) ==> k(m) == 0 && k(n) == 0 && ctxp(n) == pos(cur(t))
 //@   requires fn(self) == fnid("cmpBooleanBoolean") ==> is(m, bool) && is(n, bool)
 //@   requires fn(self) == fnid("cmpBooleanAny") ==> is(m, bool) || is(n, bool)
 //@   requires fn(self) == fnid("cmpNumericNumeric") ==> is(m, float64) && is(n, float64)
@@ -587,7 +611,19 @@ package xpath
 //@ func cmpNodeSetNodeSet
 //@   props C15 C07
 //@   conforms type logical
-//@   loop 1 invariant y != nil
+//@   theory stream
+//@   requires[fresh-streams@C07] k(m) == 0 && k(n) == 0 && ctxp(n) == pos(cur(t))
+//@   assume[ownership] ref(m) != ref(n)     // the two operands are different query objects (disjoint trees)
+//@   let eb = epoch(n)
+//@   ensures[exists-pair@C07] op == "=" || op == "!=" ==> result == exists(i, Int, 0 <= i && i < slen(ref(m), epoch(m)) && exists(j, Int, 0 <= j && j < slen(ref(n), eb) && cmpStr(op, sval(m, i), nav_value(spos(ref(n), eb, j)))))
+//@   loop 0 invariant epoch(m) == old(epoch(m)) && 0 <= k(m) && k(m) <= slen(ref(m), epoch(m))
+//@   loop 0 invariant k(n) == 0 && sameS(n, epoch(n), eb) && ctxp(n) == pos(cur(t))
+//@   loop 0 invariant op == "=" || op == "!=" ==> forall(i, Int, 0 <= i && i < k(m) ==> forall(j, Int, 0 <= j && j < slen(ref(n), eb) ==> !cmpStr(op, sval(m, i), nav_value(spos(ref(n), eb, j)))))
+//@   loop 1 invariant y != nil && x != nil
+//@   loop 1 invariant epoch(m) == old(epoch(m)) && 1 <= k(m) && k(m) <= slen(ref(m), epoch(m)) && pos(x) == spos(ref(m), epoch(m), k(m) - 1)
+//@   loop 1 invariant 1 <= k(n) && k(n) <= slen(ref(n), epoch(n)) && sameS(n, epoch(n), eb) && ctxp(n) == pos(cur(t)) && pos(y) == spos(ref(n), epoch(n), k(n) - 1)
+//@   loop 1 invariant op == "=" || op == "!=" ==> forall(i, Int, 0 <= i && i < k(m) - 1 ==> forall(j, Int, 0 <= j && j < slen(ref(n), eb) ==> !cmpStr(op, sval(m, i), nav_value(spos(ref(n), eb, j)))))
+//@   loop 1 invariant op == "=" || op == "!=" ==> forall(j, Int, 0 <= j && j < k(n) - 1 ==> !cmpStr(op, sval(m, k(m) - 1), nav_value(spos(ref(n), eb, j))))
 //@ func eqFunc
 //@   props C15 C07
 //@   conforms logicalQuery.Do
@@ -608,8 +644,12 @@ package xpath
 //@   conforms logicalQuery.Do
 //@ func cmpBooleanAny$1
 //@   props C15 C07
+//@   receiver v
+//@   tree-frame
+//@   disjoint-operands
+//@   preserves heap(F:NodeIterator.*)
 //@   captures t != nil
-//@   requires valtype(v)
+//@   requires valtype(v) && streamOK(v)
 //@ func getXPathType
 //@   props C15
 //@   inline
@@ -860,3 +900,21 @@ package xpath
 //@   inline
 //@ func stringToNumber
 //@   inline
+//@ func (*logicalQuery).Evaluate
+//@   props C15 C07
+//@   theory stream
+//@ func (*numericQuery).Evaluate
+//@   props C15 C08
+//@   theory stream
+
+//@ define truthOf(v, e) = ite(is(v, bool), as(v, bool), ite(is(v, float64), as(v, float64) != 0 && !isNaN(as(v, float64)), ite(is(v, string), as(v, string) != "", is(v, query) && 0 < slen(ref(v), e))))
+//@ func (*booleanQuery).Evaluate
+//@   props C15 C07
+//@   theory stream
+//@   requires !is(b.Left, nopQuery) && !is(b.Right, nopQuery)
+//@   assume[ownership] ref(b.Left) != ref(b.Right)
+//@   let eL = epoch(b.Left) + 1
+//@   let eR = epoch(b.Right) + 1
+//@   ensures[short-circuit-or@C07] b.IsOr && truthOf(evalv(ref(b.Left), eL), eL) ==> result == box(true) && epoch(b.Right) == old(epoch(b.Right))
+//@   ensures[short-circuit-and@C07] !b.IsOr && !truthOf(evalv(ref(b.Left), eL), eL) ==> result == box(false) && epoch(b.Right) == old(epoch(b.Right))
+//@   ensures[right@C07] (b.IsOr && !truthOf(evalv(ref(b.Left), eL), eL)) || (!b.IsOr && truthOf(evalv(ref(b.Left), eL), eL)) ==> result == box(truthOf(evalv(ref(b.Right), eR), eR))
